@@ -144,11 +144,18 @@ CLAIMS = {
               'PARTIAL: the layout half (pack numbering / fill order, _get_pack_id_to_write_to) is decided by differential testing only.'),
         design='4/C13'),
     'C14': dict(
-        technique='Coq: merge classification theorem (keys to transfer) + index lemmas + import-heavy histories',
-        text=('PROOF (Coq, closed): C14_keys_to_transfer (LEFTONLY of the sorted merge = requested keys the destination lacks, each once; built on the '
-              'C16 dws proofs), C14_no_second_entry, C14_destination_entries_untouched, C14_transferred_keys_indexed, content-addressing. TIE: 169 '
-              'import-heavy histories over both hash combinations, compress, target_memory_bytes 1..1e6 (all three cache branches), list/tuple/set/'
-              'one-shot generator, callback; source unchanged; import traces pass the monitor. PARTIAL: import_objects is not a Gallina program.'),
+        technique='Coq: import as a program (all batch lists, packs, modes) proved complete, byte-identical and crash-safe; cache plan proved a permutation within budget; merge classification; trace, plan and history correspondence',
+        text=('PROOF (Coq, closed): C14_transfer_complete_and_byte_identical (Programs.p_import: ANY list of do_commit=False batches over ANY packs, '
+              'all three modes, with/without fsync, one COMMIT: every object of every batch reads back as exactly its content under the key of that '
+              'content, everything held before reads back unchanged, Inv holds), C14_destination_otherwise_untouched (new index = old index + collected '
+              'rows under INSERT OR IGNORE, loose untouched, packs only grew), C14_interrupted_transfer_is_harmless (every prefix), '
+              'C14_every_yielded_object_handed_over_once + C14_memory_budget_honoured (ImportPlan.plan, the bounded cache: permutation of the yielded '
+              'objects, bulk flushes non-empty and within budget, an object goes alone iff larger than the budget), C14_keys_to_transfer (LEFTONLY of '
+              'the sorted merge = requested keys the destination lacks, each once), C14_no_second_entry, content-addressing. TIE: p_import reproduces '
+              'the intercepted event trace of 4 import scenarios (same/different hash, cached/streamed, pack roll-over); ImportPlan.plan (extracted) == '
+              'the calls import_objects makes on the destination for generated sources and budgets straddling the sizes; import-heavy histories over '
+              'both hash combinations, compress, target_memory_bytes 1..1e6, list/tuple/set/one-shot generator, callback; source unchanged. '
+              'NOT MODELLED: reading from the source container, the callback, the old->new mapping dict (decided by the histories only).'),
         design='4/C14'),
     'C15': dict(
         technique='Coq backup completeness theorem over monotone history + real rsync behind a scheduling wrapper',
